@@ -492,7 +492,7 @@ func (p *parseState) estimateCommand() error {
 		msg = fmt.Sprintf("Unknown command `%s'", p.retargs[0])
 		errtype = ErrUnknownCommand
 
-		if float32(l)/float32(len(c)) < 0.5 {
+		if float32(l)/float32(utf8.RuneCountInString(c)) < 0.5 {
 			msg = fmt.Sprintf("%s, did you mean `%s'?", msg, c)
 		} else if len(cmdnames) == 1 {
 			msg = fmt.Sprintf("%s. You should use the %s command",
